@@ -390,6 +390,11 @@ func runCase(seed int64, idx int, pr params) *caseResult {
 						c.afterCrash()
 					} else {
 						c.faultMode = world.None
+						// the scheduler retries a cleanly failed bind: filter again, bind on another offered node if there
+						// is one (not after a lost reply: there memory and store may legitimately disagree, see C05)
+						if kind == world.FailAt {
+							c.retryElsewhere(op)
+						}
 					}
 					if merge(c) {
 						return finish()
@@ -431,7 +436,9 @@ func runCase(seed int64, idx int, pr params) *caseResult {
 				c.exec(op, nil, map[int]bool{k: true})
 				res.counts["injected_provider_failures"]++
 				c.faultMode = world.None
-				// let the real retry paths run: release queue, resync
+				// the scheduler retries a failed bind (on another offered node if there is one); then let the real
+				// retry paths run: release queue, resync
+				c.retryElsewhere(op)
 				c.quiesce()
 				if merge(c) {
 					return finish()
@@ -447,6 +454,35 @@ func runCase(seed int64, idx int, pr params) *caseResult {
 	}
 	s.exec(Op{Kind: "quiesce"}, nil, nil)
 	return finish()
+}
+
+// retryElsewhere is what kube-scheduler does after a failed bind: the pod stays pending, is filtered again and bound to
+// one of the offered nodes - here a different node than the failed attempt's whenever the filter offers one.
+func (c *Sim) retryElsewhere(op Op) {
+	if op.Kind != "bind" || c.ownAlarms() > 0 {
+		return
+	}
+	p := c.podByUID(op.Pod)
+	if p == nil || !world.Live(p) || p.Spec.NodeName != "" {
+		return
+	}
+	c.exec(Op{Kind: "filter", Pod: op.Pod}, nil, nil)
+	r := c.Pods[op.Pod]
+	if r == nil || !r.FilterOK || len(r.Offered) == 0 || c.ownAlarms() > 0 {
+		return
+	}
+	node := r.Offered[0]
+	for _, n := range r.Offered {
+		if n != op.Node {
+			node = n
+			break
+		}
+	}
+	c.Counts["retries_after_failed_bind"]++
+	if node != op.Node {
+		c.Counts["retries_after_failed_bind_on_other_node"]++
+	}
+	c.exec(Op{Kind: "bind", Pod: op.Pod, Node: node}, nil, nil)
 }
 
 // execWatched runs exec under a generous wall-clock watchdog (inconclusive on expiry, never a verdict).
